@@ -17,7 +17,9 @@ var c02Stmts, c02Budget int64
 
 type budgetExceeded struct{}
 
-func (budgetExceeded) Error() string { return "verif: statement budget exceeded (non-termination suspected)" }
+func (budgetExceeded) Error() string {
+	return "verif: statement budget exceeded (non-termination suspected)"
+}
 
 func c02Hook(int) {
 	c02Stmts++
